@@ -481,10 +481,21 @@ class SymEval:
                 return self.arith(f[1], self.force(args[0]), self.force(args[1]))
             return ("unk", "function item arity")
         if f[0] == "ufn" and self.uninterp:
-            try:
-                return ("arr", self.alg.atom("call:%s[%s]" % (f[1], "|".join(self.canon(a) for a in args))))
-            except Abstain as ex:
-                return ("unk", str(ex))
+            # an uninterpreted function distributes over the alternatives of its arguments
+            import itertools
+            choices = [self.alts(self.force(a)) for a in args]
+            n_comb = 1
+            for ch in choices:
+                n_comb *= max(1, len(ch))
+            outs = []
+            if n_comb <= 8:
+                for combo in itertools.product(*choices):
+                    try:
+                        outs.append(("arr", self.alg.atom("call:%s[%s]" % (f[1], "|".join(self.canon(a) for a in combo)))))
+                    except Abstain as ex:
+                        outs.append(("unk", str(ex)))
+                return self.mk_alt(outs)
+            return ("unk", "too many alternatives")
         if f[0] != "clo":
             return ("unk", "call of %s" % f[0])
         cb = self.facts.body(f[1])
@@ -593,11 +604,29 @@ class SymEval:
             return self.ev(args[0], env)
         if c == "alloc::rc::Rc::<T>::clone" or c.endswith("::clone") and args:
             return self.ev(args[0], env)
+        if r.startswith("<%s as core::convert::From<alloc::vec::Vec<%s>>>" % (ARRAY, fl)) and args:
+            # a one-value array: under broadcasting it is that value at every position
+            from .repr_rules import vec_literal_elems as _vle
+            els = _vle(strip(args[0]))
+            if els is not None and len(els) == 1:
+                sv = self.ev(els[0], env)
+                outs = [("arr", x[1]) if x[0] == "s" else ("unk", "one-value array of %s" % x[0]) for x in self.alts(sv)]
+                return self.mk_alt(outs)
+            return ("unk", "array from a vector")
         if r.startswith(FROM_ARRAY) and args:
             t = self.ev(args[0], env)
             if t[0] == "tup" and len(t[1]) == 2:
                 v = self.force(t[1][1])
-                outs = [("arr", x[1]) if x[0] == "v" else ("unk", "array built from %s" % x[0]) for x in self.alts(v)]
+                outs = []
+                for x in self.alts(v):
+                    if x[0] != "v":
+                        outs.append(("unk", "array built from %s" % x[0]))
+                    elif self.detach and getattr(self, "ctor_depth", 0) == 0 and not isinstance(x[1], PW) \
+                            and any(a[0] == "a" and a[1:].isdigit() for a in x[1].atoms()):
+                        # outside an operation constructor, an array assembled from an operand's numbers is a new leaf: equal in value, without the graph
+                        outs.append(("arr", self.alg.atom("det[%r]" % x[1])))
+                    else:
+                        outs.append(("arr", x[1]))
                 return self.mk_alt(outs)
             return ("unk", "array constructor argument")
         # ---- iterator pipelines over element-wise vectors
@@ -673,13 +702,22 @@ class SymEval:
                 return a if a[0] == "opt" else ("unk", "option method on %s" % a[0])
             if cal.get("resolved_local"):
                 tb = self.facts.body(cal.get("resolved"))
-                if tb is not None and tb.get("impl_self") == ARRAY and tb.get("impl_trait_def") is None and tb.get("name") in UNINTERPRETED:
-                    try:
-                        key = "%s[%s]" % (tb["name"], "|".join(self.canon(self.ev(a, env)) for a in args))
-                    except Abstain as ex:
-                        return ("unk", str(ex))
+                if tb is not None and tb.get("impl_self") == ARRAY and tb.get("impl_trait_def") is None and (tb.get("name") in UNINTERPRETED or tb.get("name") in getattr(self, "extra_uninterp", ())):
+                    import itertools
                     kind = "s" if (tb.get("output") or "") == self.fl else "arr"
-                    return (kind, self.alg.atom(key))
+                    choices = [self.alts(self.ev(a, env)) for a in args]
+                    n_comb = 1
+                    for ch in choices:
+                        n_comb *= max(1, len(ch))
+                    if n_comb > 8:
+                        return ("unk", "too many alternatives")
+                    outs = []
+                    for combo in itertools.product(*choices):
+                        try:
+                            outs.append((kind, self.alg.atom("%s[%s]" % (tb["name"], "|".join(self.canon(a) for a in combo)))))
+                        except Abstain as ex:
+                            outs.append(("unk", str(ex)))
+                    return self.mk_alt(outs)
         if cal.get("resolved_local"):
             return self.local_call(e, env, [self.ev(a, env) for a in args])
         return ("unk", "call of %s" % (r or c))
@@ -846,6 +884,21 @@ class Forward:
         if comb is not None:
             return comb
         self.stack.append(b["def"])
+        if not hasattr(self, "_ctor_defs"):
+            from .op_rules import op_constructors, ATTACH_PRIMITIVES
+            self._ctor_defs = {x["def"] for x in op_constructors(self.facts)} | set(ATTACH_PRIMITIVES)
+        is_ctor = b["def"] in self._ctor_defs or any(is_backward_closure(nb) for nb in self.facts.nested(b))
+        if not is_ctor:
+            # ... or hands the array it builds to a private helper that attaches the graph to it
+            from .op_rules import attachment_calls
+            for n_ in walk(self.facts.root(b)):
+                if n_.get("k") == "Call" and (n_.get("callee") or {}).get("resolved_local"):
+                    hb = self.facts.body(resolved(n_))
+                    if hb is not None and hb["kind"] in ("Fn", "AssocFn") and not hb.get("reachable") and hb.get("impl_trait_def") is None and attachment_calls(hb, self.facts):
+                        is_ctor = True
+                        break
+        if is_ctor:
+            self.ev.ctor_depth = getattr(self.ev, "ctor_depth", 0) + 1
         try:
             env = Env(None)
             ps = [p for p in self.facts.params(b) if p.get("pat")]
@@ -861,6 +914,8 @@ class Forward:
             return self.ev.ev(root, env)
         finally:
             self.stack.pop()
+            if is_ctor:
+                self.ev.ctor_depth -= 1
 
     def ctor(self, b):
         """(value of the result, parameter atoms) for an operation constructor evaluated on generic operands"""
